@@ -1,0 +1,29 @@
+//go:build verif
+
+// Second read-only export for the verification harness (/verif/harness/cmd/sessions, property C14). Add-only,
+// compiled only with -tags verif. No logic: the timeout and client identity each in-memory session was started with.
+package server
+
+import "time"
+
+// VerifSessionMeta is what startSession took from the session's metadata.
+type VerifSessionMeta struct {
+	Timeout  time.Duration
+	Identity string
+}
+
+// VerifSessionInfo returns, for every session in the current session manager's table, the timeout its timer runs
+// with and its client identity.
+func VerifSessionInfo(l LeaderController) map[int64]VerifSessionMeta {
+	lc := l.(*leaderController)
+	lc.RLock()
+	sm := lc.sessionManager.(*sessionManager)
+	lc.RUnlock()
+	sm.RLock()
+	defer sm.RUnlock()
+	res := map[int64]VerifSessionMeta{}
+	for _, s := range sm.sessions.Values() {
+		res[int64(s.id)] = VerifSessionMeta{Timeout: s.timeout, Identity: s.clientIdentity}
+	}
+	return res
+}
